@@ -8,7 +8,8 @@ MCArgs == { A("ident", <<"a">>), A("unquoted", <<"a", "\\", Q>>), A("unquoted", 
             A("varref", <<"$", "o", "a", "o">>), A("bracket", <<"[", "[", "a", "]", "]">>), A("bracket", <<"[", "[", Q, "a", Q, "]", "]">>),
             A("unquoted", <<"\\", Q, "a", "\\", Q>>), A("quoted", <<Q, "e", Q>>),
             A("quoted", <<Q, "a", " ", " ", "\t", "a", Q>>),
-            A("quoted", <<Q, "a", "\\", "\\", Q>>), A("quoted", <<Q, "\\", "\\", Q>>) }
+            A("quoted", <<Q, "a", "\\", "\\", Q>>), A("quoted", <<Q, "\\", "\\", Q>>),
+            A("quoted", <<Q, "$", "$", "a", "/", "a", Q>>), A("unquoted", <<"$", "$", "o", "a", "o">>) }     \* '$$' and '$${a}' stay as written
 BothKinds == {"set", "option"}
 NoDev == {}
 CurrentDev == {}
